@@ -12,6 +12,7 @@ import (
 	"math"
 	"reflect"
 	"strings"
+	"time"
 
 	"github.com/openGemini/openGemini/engine/executor"
 	"github.com/openGemini/openGemini/engine/hybridqp"
@@ -38,7 +39,9 @@ func (g *gen) cleanCondition() (influxql.Expr, string) {
 	return e, "a = 1"
 }
 
-func (g *gen) word() string { return g.pick([]string{"a", "host", "region", "usage_user", "my col", "é", "x.y", "", "sel\"ect"}) }
+func (g *gen) word() string {
+	return g.pick([]string{"a", "host", "region", "usage_user", "my col", "é", "x.y", "", "sel\"ect"})
+}
 
 // ---------------------------------------------------------------------------------------------
 // plans
@@ -59,7 +62,7 @@ func (g *gen) schema() *executor.QuerySchema {
 
 type planStep struct {
 	kind, a, b, c int
-	flag       bool
+	flag          bool
 }
 
 func (g *gen) plan(s *executor.QuerySchema) hybridqp.QueryNode {
@@ -374,9 +377,90 @@ func runChunk(c *hx.Ctx, g *gen) {
 	}
 }
 
-// runCodecs: n objects, a third of each kind.
+// ---------------------------------------------------------------------------------------------
+// the query message
+
+func dumpRemote(q *executor.RemoteQuery) string {
+	var b strings.Builder
+	fmt.Fprintf(&b, "db=%q pt=%d node=%d shards=%v analyze=%v plan=%x", q.Database, q.PtID, q.NodeID, q.ShardIDs, q.Analyze, q.Node)
+	for _, p := range q.PtQuerys {
+		fmt.Fprintf(&b, " ptq{%d", p.PtID)
+		for _, s := range p.ShardInfos {
+			fmt.Fprintf(&b, " %d/%q/%d", s.ID, s.Path, s.Version)
+		}
+		b.WriteString("}")
+	}
+	dumpOpt := func(o *query.ProcessorOptions) string {
+		_, m := canonOpts(o, nil, false)
+		return m["Name"] + "," + m["Limit"] + "," + m["Ascending"] + "," + m["Condition"] + "," + m["Interval"]
+	}
+	b.WriteString(" opt=" + dumpOpt(&q.Opt))
+	for _, m := range q.MstInfos {
+		fmt.Fprintf(&b, " mst{%v %s}", m.ShardIds, dumpOpt(&m.Opt))
+	}
+	return b.String()
+}
+
+func (g *gen) smallOpt() query.ProcessorOptions {
+	cond, _ := g.cleanCondition()
+	return query.ProcessorOptions{Name: g.word(), Limit: g.r.Intn(1000), Ascending: g.r.Bool(), Condition: cond,
+		Interval: hybridqp.Interval{Duration: time.Duration(g.r.Intn(1000)) * time.Second, Offset: time.Duration(g.r.Intn(1000))}}
+}
+
+func runRemote(c *hx.Ctx, g *gen) {
+	var ans, want, have string
+	p := hx.Safe(func() {
+		q := &executor.RemoteQuery{Database: g.word(), PtID: uint32(g.r.U64()), NodeID: g.r.U64(), Analyze: g.r.Bool(),
+			Node: []byte(g.word() + "plan"), Opt: g.smallOpt()}
+		for i := 0; i < g.r.Intn(4); i++ {
+			q.ShardIDs = append(q.ShardIDs, g.r.U64()>>uint(g.r.Intn(64)))
+		}
+		for i := 0; i < g.r.Intn(3); i++ {
+			pq := executor.PtQuery{PtID: uint32(g.r.Intn(100))}
+			for k := 0; k < g.r.Intn(3); k++ {
+				pq.ShardInfos = append(pq.ShardInfos, executor.ShardInfo{ID: g.r.U64(), Path: g.word(), Version: uint32(g.r.Intn(5))})
+			}
+			q.PtQuerys = append(q.PtQuerys, pq)
+		}
+		for i := 0; i < g.r.Intn(3); i++ {
+			q.MstInfos = append(q.MstInfos, &executor.MultiMstInfo{ShardIds: []uint64{uint64(i), g.r.U64()}, Opt: g.smallOpt()})
+		}
+		want = dumpRemote(q)
+		buf, err := q.Marshal(nil)
+		if err != nil {
+			ans = "err marshal " + err.Error()
+			return
+		}
+		back := &executor.RemoteQuery{}
+		if err := back.Unmarshal(buf); err != nil {
+			ans = "err unmarshal " + err.Error()
+			return
+		}
+		have = dumpRemote(back)
+		if want == have {
+			ans = "ok"
+		} else {
+			ans = "differs"
+		}
+	})
+	if p != "" {
+		ans = "err " + p
+	}
+	line := c.Emit("codec remote", ans)
+	c.Case(fmt.Sprintf("remote %d", line), true)
+	c.Count("codec:remote")
+	if ans != "ok" {
+		c.Violation(line, "", "RemoteQuery Marshal->Unmarshal: "+ans+" sent "+want+" received "+have)
+	}
+}
+
+// runCodecs: n objects: options, plans, chunks, and every tenth a query message.
 func runCodecs(c *hx.Ctx, g *gen, n int) error {
 	for i := 0; i < n; i++ {
+		if i%10 == 9 {
+			runRemote(c, g)
+			continue
+		}
 		switch i % 3 {
 		case 0:
 			runOpts(c, g)
